@@ -6,7 +6,7 @@ from ..gen import gen_e1, gen_steps, gen_adapter, PASS
 from ..monitor import run_e1
 from ..findings import e1_known_sig
 from ..model import any_close, convert
-from ..world import dt, tick, mag, make_adapter
+from ..world import dt, td, tick, mag, make_adapter
 
 import numpy as np
 from finam import Info, NoGrid, Input, Output
@@ -254,7 +254,7 @@ def run_wsum_pairs(sc):
     def gen(grid, shape, val, wgt, step, name):
         return CallbackGenerator({"Value": (lambda t: np.full(shape, val + tick(t)), fm.Info(time=None, grid=grid, units="m")),
                                   "Weight": (lambda t: np.full(shape, wgt), fm.Info(time=None, grid=grid, units=""))},
-                                 dt(0), timedelta(hours=step)).with_name(name)
+                                 dt(0), td(step)).with_name(name)
     gen_a = gen(ga, shape_a, 1.0, 0.25, 1, "gen_a")
     gen_b = gen(gb, shape_b, 2.0, 0.75, sc["cstep"], "gen_b")
 
@@ -281,7 +281,7 @@ def run_wsum_pairs(sc):
             pass
     ws = WeightedSum(inputs=["A", "B"]).with_name("ws")
     got = []
-    cons = DebugConsumer({"i": fm.Info(time=None, grid=None, units=None)}, start=dt(0), step=timedelta(hours=sc["cstep"]),
+    cons = DebugConsumer({"i": fm.Info(time=None, grid=None, units=None)}, start=dt(0), step=td(sc["cstep"]),
                          callbacks={"i": lambda n, d, t: got.append((tick(t), np.array(d.magnitude)))}).with_name("cons")
     comps = [gen_a, gen_b, ws, cons]
     relay = inner = None
@@ -359,13 +359,13 @@ def run_wsum_grid(sc):
     ma, mb, mc = MGrid(sc["a"]), MGrid(sc["b"]), MGrid(sc["c"])
     cv, cw = [3.0, 1.0, 10.0][: ma.dim + 1], [1.0, 0.5, 0.25][: ma.dim + 1]
     fva, fwb = ma.field(cv), mb.field(cw)
-    val = CallbackGenerator({"o": (lambda t: fva + 10.0 * tick(t), fm.Info(time=None, grid=ga, units="m"))}, dt(0), timedelta(hours=1))
-    wgt = CallbackGenerator({"o": (lambda t: fwb.copy(), fm.Info(time=None, grid=gb, units=""))}, dt(0), timedelta(hours=1))
+    val = CallbackGenerator({"o": (lambda t: fva + 10.0 * tick(t), fm.Info(time=None, grid=ga, units="m"))}, dt(0), td(1))
+    wgt = CallbackGenerator({"o": (lambda t: fwb.copy(), fm.Info(time=None, grid=gb, units=""))}, dt(0), td(1))
     wsg = {None: None, "a": make_grid(sc["a"]), "b": make_grid(sc["b"]), "c": make_grid(sc["c"])}[sc["ws_grid"]]
     ws = WeightedSum(inputs=["A"], grid=wsg)
     got = []
     cons = DebugConsumer({"i": fm.Info(time=None, grid=gc if sc["cons_grid"] else None, units="m")}, start=dt(0),
-                         step=timedelta(hours=sc["cstep"]),
+                         step=td(sc["cstep"]),
                          callbacks={"i": lambda n, d, t: got.append((tick(t), np.array(d.magnitude), str(d.units)))})
     comps = [val.with_name("val"), wgt.with_name("wgt"), ws.with_name("ws"), cons.with_name("cons")]
 
